@@ -165,12 +165,18 @@ PLACE: Dict[str, Tuple[str, ...]] = {
     'func': ('def outer():\n', '    '),
     'main': ('if __name__ == "__main__":\n', '    '),
     'main-reversed': ('if "__main__" == __name__:\n', '    '),
+    # the main guard somewhere else than at the top level of the module
+    'class-main': ('class K:\n    if __name__ == "__main__":\n', '        '),
+    'try-main': ('try:\n    if __name__ == "__main__":\n', '        ', 'finally:\n    pass\n'),
+    'if-main': ('if True:\n    if __name__ == "__main__":\n', '        '),
+    'with-main': ('import contextlib\nwith contextlib.nullcontext():\n    if __name__ == "__main__":\n', '        '),
+    'for-main': ('for _i in (1,):\n    if __name__ == "__main__":\n', '        '),
     # taken on import: the opposite of a __main__ block
     'not-main': ('if __name__ != "__main__":\n', '    '),
     'else-of-false': ('if False:\n    pass\nelif True:\n', '    '),
     'while-once': ('_n = 0\nwhile _n < 1:\n    _n += 1\n', '    '),
 }
-NEGATIVE = ('func', 'main', 'main-reversed')
+NEGATIVE = ('func', 'main', 'main-reversed', 'class-main', 'try-main', 'if-main', 'with-main', 'for-main')
 UNJUDGED = ('else-of-false', 'while-once')
 CLASS_ONLY = ('prop-then-string', 'static', 'clsm', 'prop', 'oldstatic', 'oldclsm', 'async_static', 'outer-static', 'outer-clsm', 'outer-static-other-name')
 
@@ -204,7 +210,7 @@ def pykind(ns: Any, name: str) -> Optional[Tuple[str, Optional[str], bool]]:
 
 
 def locate(pm: Any, m: Any, pl: str) -> Tuple[Any, Any]:
-    if pl in ('class', 'class-if', 'class-try', 'class-try-else'):
+    if pl in ('class', 'class-if', 'class-try', 'class-try-else', 'class-main'):
         return pm.K, m.contents['K']
     if pl == 'nestedclass':
         return pm.K.N, m.contents['K'].contents['N']
@@ -421,7 +427,10 @@ def check_literal(lit: str, pl: str, res: Dict[str, Any], rebind: Optional[str] 
     body = f'{ind}X = {lit}\n'
     if rebind is not None:
         # the same name is bound again, to a literal of another type: the type shown must be the type of the FINAL value
-        body += {'plain': f'{ind}X = {rebind}\n', 'if': f'{ind}if True:\n{ind}    X = {rebind}\n', 'try': f'{ind}try:\n{ind}    X = {rebind}\n{ind}finally:\n{ind}    pass\n'}[how]
+        if how.startswith('aug:'):
+            body += f'{ind}X {how[4:]}= {rebind}\n'
+        else:
+            body += {'plain': f'{ind}X = {rebind}\n', 'if': f'{ind}if True:\n{ind}    X = {rebind}\n', 'try': f'{ind}try:\n{ind}    X = {rebind}\n{ind}finally:\n{ind}    pass\n'}[how]
     full = wrap(pl, body)
     with pd.scratch('c03l') as d:
         pd.write_tree(d, {'m.py': full})
@@ -598,6 +607,16 @@ def run_job(job: Any, tier: str) -> Dict[str, Any]:
         for l1, l2 in itertools.permutations(REB, 2):
             for how in ('plain', 'if', 'try'):
                 check_literal(l1, job[1], res, l2, how)
+        # augmented assignments: the value (and its type) is the result of the operation, not of either operand
+        AUG = ['6', '4', '-1', 'True', '1.5', "'s'", '[1]', '(1, 2)', '2']
+        for l1, l2 in itertools.product(AUG, repeat=2):
+            for op in ('+', '-', '*', '/', '//', '%', '**', '|', '&', '<<'):
+                try:
+                    ns: Dict[str, Any] = {}
+                    exec(f'X = {l1}\nX {op}= {l2}\n', ns)
+                except Exception:  # noqa
+                    continue
+                check_literal(l1, job[1], res, l2, 'aug:' + op)
     elif job[0] == 'package':
         check_package(job[1], res)
     elif job[0] == 'inherited':
